@@ -182,3 +182,7 @@ META = dict(
     trusted_base=["A-REAL", "A-PY", "A-NP-SUM (np.sum of a boolean mask = number of True entries, ghost count per object)", "numpy cov(aweights) external", "PyVC engine + z3/cvc5"],
     assumptions=["A-REAL", "A-PY", "A-NP-SUM", "A-NP-COV", "A-PERM"],
 )
+
+# the constructors of the result objects (contracts/ctor_hvsr.py): an azimuthal result holds one new per-azimuth object per (curves, azimuth) pair, in order
+import contracts.ctor_hvsr as _CTOR
+TASKS += [t for t in _CTOR.TASKS if "HvsrAzimuthal.__init__" in t.label]
